@@ -261,23 +261,28 @@ func (c *Cache) Statistics(tags map[string]string) []models.Statistic {
 // init initializes the cache and allocates the underlying store.  Once initialized,
 // the store re-used until Freed.
 func (c *Cache) init() {
-	if !atomic.CompareAndSwapUint32(&c.initializedCount, 0, 1) {
+	if atomic.LoadUint32(&c.initializedCount) == 1 {
 		return
 	}
 
+	// The flag is set only once the store is in place, so that a concurrent caller
+	// waits for the store here rather than carrying on with the empty one, which
+	// silently discards what is written to it.
 	c.mu.Lock()
-	c.store, _ = newring(ringShards)
+	if c.initializedCount == 0 {
+		c.store, _ = newring(ringShards)
+		atomic.StoreUint32(&c.initializedCount, 1)
+	}
 	c.mu.Unlock()
 }
 
 // Free releases the underlying store and memory held by the Cache.
 func (c *Cache) Free() {
-	if !atomic.CompareAndSwapUint32(&c.initializedCount, 1, 0) {
-		return
-	}
-
 	c.mu.Lock()
-	c.store = emptyStore{}
+	if c.initializedCount == 1 {
+		c.store = emptyStore{}
+		atomic.StoreUint32(&c.initializedCount, 0)
+	}
 	c.mu.Unlock()
 }
 
